@@ -244,6 +244,10 @@ def c01(chk):
     chk.proofs(["Midi.Props.C01"])
     chk.translated(['TShort', 'TStruct', 'TBits'])
     msg_exhaustive(chk, C01_CELLS, mask="c01")
+    # the serde configuration: a value that enters through Deserialize is "created" / "constructed" too
+    exe_s = chk.cargo_build("with_serde")
+    if exe_s is not None:
+        lines_run(chk, exe_s, ["serde-lines"], "serde", only=r"de raw ")
     chk.assumptions += ["a third-party implementor is any record of three getters + from_bytes_unchecked (model: universally quantified `Factory`); the harness exercises two concrete ones"]
 
 
@@ -446,6 +450,10 @@ def c07(chk):
     sample_from(chk, "enc14", 2)
     scanner_runs(chk, exe, "cc")
     lines_run(chk, exe, ["cc-roundtrip"], "cc-roundtrip", stateful=True)
+    # the serde configuration: a value that enters through Deserialize is "created" / "constructed" too
+    exe_s = chk.cargo_build("with_serde")
+    if exe_s is not None:
+        lines_run(chk, exe_s, ["serde-lines"], "serde", only=r"(de cc14 |oracle c04-deserialized-cc14)")
     chk.cov["rule"] = ("encoder: every channel x every controller number 0-127 (panic expected from 32 up) x a value sweep (quick: every 61st value + boundaries + "
                        "seeded random; thorough: all 16384) for Raw and Structured targets, incl. the array conversion; scanner: " + EXPLORE_RULE)
 
@@ -472,6 +480,10 @@ def c09(chk):
     run_corpus(chk, exe)
     lines_run(chk, exe, ["encpn-lines"], "encpn")
     sample_from(chk, "encpn", 3)
+    # the serde configuration: a value that enters through Deserialize is "created" / "constructed" too
+    exe_s = chk.cargo_build("with_serde")
+    if exe_s is not None:
+        lines_run(chk, exe_s, ["serde-lines"], "serde", only=r"(de pn |oracle c04-deserialized-pn)")
     chk.cov["rule"] = ("for each of the 8 constructors x both byte orders x Raw and Structured targets: full sweep of each dimension separately (16 channels; "
                        "all 16384 numbers; all 128 / 16384 values) plus seeded samples of the product (thorough: 200000 per combination, + foreign target); every "
                        "request compares the six accessors, the four slots and the array conversion")
